@@ -425,6 +425,13 @@ func (s *Solver) Check(asserts []*Term, wantModel []*Term) (Result, []uint64) {
 			hard = true
 		}
 	}
+	if hard && os.Getenv("GOSYM_DEBUG_HARD") != "" {
+		for _, a := range asserts {
+			if a.Hard {
+				fmt.Fprintf(os.Stderr, "HARD: %s\n", a.String())
+			}
+		}
+	}
 	if hard {
 		// multiplier/divider/float content: z3's incremental core gives up where the
 		// one-shot tactics decide quickly; go non-incremental right away
